@@ -30,9 +30,9 @@ impl DevCfg {
             .set("caps", J::s(caps_name(self.caps)))
             .set("discipline", J::s(self.disc().name()))
     }
-    /// index into the capability x discipline lattice (32 points)
+    /// index into the capability x discipline lattice (8 x 5 = 40 points)
     pub fn lattice(&self) -> u32 {
-        self.caps as u32 * 4 + self.disc as u32
+        self.caps as u32 * crate::dev::N_DISC + self.disc as u32
     }
 }
 
@@ -121,7 +121,7 @@ pub fn gen_small_box(src: &mut Src) -> [i32; 4] {
 }
 
 pub fn gen_caps_disc(src: &mut Src) -> (u8, u8) {
-    (src.draw(8) as u8, src.draw(4) as u8)
+    (src.draw(8) as u8, src.draw(crate::dev::N_DISC) as u8)
 }
 
 /// A stack of 0..=max_depth adapters (device-first order). Areas are drawn relative to the box of
